@@ -83,9 +83,9 @@ mutual
     | setM (on : Bool)                     -- `set -m` / `set +m` (job control)
     | call (name : Name)                   -- a command name resolved by the search order
     | unknown                              -- a name that is nothing: status 127
-    | absent (words assigns : Option Nat)  -- no command name: words that expand to no field and/or
-                                           -- assignments, each possibly holding command substitutions
-                                           -- (the status of the last one, if any)
+    | absent (words redirs assigns : Option Nat)
+        -- no command name: words that expand to no field, redirections (performed in a subshell) and
+        -- assignments, each possibly holding command substitutions (the status of its last one, if any)
     | tick (c k : Nat)                     -- regular built-in: succeeds while counter c < k, then fails
     | group (body : List Item)
     | subshell (body : List Item)
@@ -228,8 +228,9 @@ mutual
       | .setM on => finishSimple { s with monitor := on, status := 0 } .continue_
       | .unknown => finishSimple { s with status := 127 } .continue_
       -- `execute_absent_target`: the status of the last command substitution of the assignments,
-      -- else of the words, else zero
-      | .absent w a => finishSimple { s with status := (a.orElse fun _ => w).getD 0 } .continue_
+      -- else of the redirections, else of the words, else zero
+      | .absent w r a =>
+        finishSimple { s with status := (a.orElse fun _ => r.orElse fun _ => w).getD 0 } .continue_
       | .tick c k =>
         let v := getCounter s.counters c
         if v < k then finishSimple { s with counters := setCounter s.counters c (v+1), status := 0 } .continue_
